@@ -40,7 +40,9 @@ class Runner:
             if self.mcount[role] == self.killplan["k"]:
                 self.killed = True
                 return "kill"
-        if self.faultplan and not self.faulted and role == self.faultplan["role"] and want.get("c") == self.faultplan["call"]:
+        fp = self.faultplan
+        if fp and not self.faulted and (role == fp["role"] or pr.role == fp["role"]) and want.get("c") == fp["call"] \
+                and (not fp.get("obj") or ("/" + fp["obj"] + "/") in (want.get("path") or want.get("obj") or "")):
             key = (role, want.get("c"))
             self.ccount[key] = self.ccount.get(key, 0) + 1
             if self.ccount[key] == self.faultplan["k"]:
@@ -70,8 +72,8 @@ class Runner:
                 # the human-readable part of a report is arbitrary: vary its length (up to beyond REPORTMAX) and shape
                 ln = self.rng.choice([0, 1, 12, 12, 40, 41, 100, 300, 3000, 12000 if self.rng.random() < 0.1 else 7])
                 body = bytes(self.rng.choice(b"abcdefghij klmnop.:<>@-_/\n") for _ in range(ln))
-                if o == "D" and "dtext" in self.h:
-                    body = self.h["dtext"]
+                if o == "D" and self.h.get("hostile"):
+                    body = hostile_text(self.rng)
                 text = text + body + (b"\n" if self.rng.random() < 0.7 else b"")
             if o == "g":
                 # a report consisting of the delivery number and NUL only is ignored entirely by design of the
@@ -155,9 +157,12 @@ class Runner:
         h = self.h
         ctl = daemon.Controller(self.tree, self.work, conc=tuple(h.get("conc", (10, 20))), announce=tuple(h.get("announce", (120, 120))), policy=self.policy)
         self.ctl = ctl
+        ctl.lifetime = h.get("lifetime", 604800)
         sandbox.clear_queue(self.tree.root)
-        ctl.set_controls(locals="local.test\n", queuelifetime=str(h.get("lifetime", 604800)), bouncefrom=None, doublebounceto=None,
-                         virtualdomains=None, percenthack=None, **h.get("controls", {}))
+        ctrl = {"locals": "local.test\n", "queuelifetime": str(h.get("lifetime", 604800)), "bouncefrom": None, "bouncehost": None, "doublebounceto": None,
+                "doublebouncehost": None, "virtualdomains": None, "percenthack": None}
+        ctrl.update(h.get("controls", {}))
+        ctl.set_controls(**ctrl)
         ctl.start()
         ctl.run()
         try:
@@ -224,7 +229,7 @@ class Runner:
         finally:
             trace = ctl.trace
             ctl.stop()
-        ev, T = qsproj.project(trace, ctl.qdir)
+        ev, T = qsproj.project(trace, ctl.qdir, dbto=h.get("dbto", b"postmaster@test.example"), pfx=h.get("pfx", b""))
         return {"ev": ev, "left": len(left), "addr": {v: k.decode("latin1") for k, v in T.addr.items()}, "nraw": len(trace)}
 
     def _clean_restart(self):
@@ -245,6 +250,20 @@ class Runner:
         ctl.trace[-1]["op"] = "stopped"
         ctl.start()
         ctl.run()
+
+
+def hostile_text(rng):
+    """failure text chosen by an attacker who controls the remote server or a delivery program: tries to forge
+    further recipient paragraphs, blank lines, long text, 8-bit bytes (never a NUL: it ends the report)"""
+    pieces = [b"\n", b"\n\n", b"\n\n\n", b"<evil@forged.test>:", b"<evil@forged.test>:\nUser unknown", b"x", b"user unknown", b"\r\n\r\n", b">:", b"<", b"\x80\xff",
+              b"550 no such user here", b" ", b"\n ", b"\t\n", b"/", b"_"]
+    n = rng.choice([0, 1, 2, 3, 4, 6, 9])
+    t = b"".join(rng.choice(pieces) for _ in range(n))
+    if rng.random() < 0.1:
+        t += b"y" * rng.choice([500, 3000, 11000])
+    if rng.random() < 0.5 and not t.endswith(b"\n"):
+        t += b"\n"
+    return t
 
 
 # ---------------------------------------------------------------------------- generation
